@@ -133,9 +133,14 @@ static void emitState(const Spec& S, const Model& M, const Integrator& I, const 
     const bool unboundedClass = famk == "CPodes.step" || famk == "AbstractIntegratorRep.minStepForced.step"
                                 || famk == "AbstractIntegratorRep.nonConvergedAccepted.step";
     const double slack = 1 + 1e-9;
-    const double rq = norm(a) / tol, rquat = norm(b) / tol, ru = norm(c) / tol;
+    double rq = norm(a) / tol, rquat = norm(b) / tol, ru = norm(c) / tol;
     // O: the harness's own floating-point evaluation of the acceptance contract (the driver re-evaluates it exactly)
     vh::O("st").i((!must || (rq <= slack && rquat <= slack && ru <= slack)) ? 1 : 0).emit();
+    if (must && unboundedClass && !(std::isfinite(rq) && std::isfinite(rquat) && std::isfinite(ru))) {
+        // the unprojected run diverged to a non-finite state within one step: report the sentinel ratio 1e4 (same finding)
+        vh::D(famk + ".nonfinite_state");
+        if (!std::isfinite(rq)) rq = 1e4; if (!std::isfinite(rquat)) rquat = 1e4; if (!std::isfinite(ru)) ru = 1e4;
+    }
     if (must && acc->cascaded) vh::D(famk + ".after_first_violation");
     if (must && !acc->cascaded) {
         if (unboundedClass && (rq > slack || rquat > slack || ru > slack || !(rq == rq) || !(ru == ru))) acc->cascaded = true;
